@@ -446,6 +446,12 @@ def inner_data_family(fz: Fz, rng):
         "bomb-1MiB": zlib.compress(b"\0" * (1 << 20))[2:-4], "bomb-16MiB": zlib.compress(b"\0" * (1 << 24))[2:-4], "exact-limit": zlib.compress(b"a" * 256000)[2:-4],
         "limit+1": zlib.compress(b"a" * 256001)[2:-4], "two-streams": raw + raw,
     }
+    for n in (255999, 256000, 256001, 256002, 256003):
+        for cname, body in (("const", b"a" * n), ("rand", rng.randbytes(n))):
+            c = zlib.compressobj(6, zlib.DEFLATED, -15)
+            streams[f"valid-{n}-{cname}-then-corrupt"] = c.compress(body) + c.flush(zlib.Z_SYNC_FLUSH) + b"\x06\xff"
+            c = zlib.compressobj(6, zlib.DEFLATED, -15)
+            streams[f"valid-{n}-{cname}-then-truncated"] = (c.compress(body + b"tail" * 50) + c.flush())[:-3] if cname == "const" else c.compress(body) + c.flush(zlib.Z_SYNC_FLUSH)
     for enc in g.ENCS:
         for alg, form in (("dir", "compact"), ("A128KW", "flattened"), ("A256KW", "general")):
             rk, _ = g.keys_for(alg, enc)
